@@ -18,6 +18,12 @@ In every stream the export itself is varied (round 3): how sub-classing is switc
 positional, the attribute set on an existing writer, a writer that exported with sub-classing before),
 a custom Section type table that has no meaning while sub-classing is off, Section types of the
 default table, one document instead of a list, the graph / a text / a file of the writer read back.
+Round 5: stream whist (model-tied histories over the WRITER: several exports of one writer by any way out, the
+documents edited in between, every searched export judged against the documents of that moment); earlier
+exports on the writer of any stream; dates / uncertainties / values at their boundaries and repositories asked
+about like texts; documents whose names and texts are words of the query notations; the list of searched values
+in the string form; Python objects as dictionary values; compare also demands library rows == directEval'
+(Model/QuerySpec.lean, the specification of C20.query_sound_complete_full) inside its hypotheses.
 """
 import itertools
 import os
@@ -94,7 +100,9 @@ VALUE_KINDS = {"int": ("int", [{"i": "20"}, {"i": "25"}]), "string": ("string", 
                "int2": ("int", [{"i": "-3"}, {"i": "0"}, {"i": "1000000000000000000000000000000"}, {"i": "20"}]),
                "float2": ("float", [{"f": "1e-07"}, {"f": "-0.1"}, {"f": "100.0"}, {"f": "1e+20"}]),
                "date": ("date", [{"d": "0999-03-04"}, {"d": "2020-01-02"}, {"d": "0001-01-01"}]),
-               "words": ("string", ["HAVING", "doc", "value", "[x]"])}
+               "words": ("string", ["HAVING", "doc", "value", "[x]"]),
+               # ten and more values: members rdf:_10, rdf:_11, ... of the value node
+               "many": ("int", [{"i": str(n)} for n in range(1, 13)])}
 REPOS = ["http://x.org/t.xml", "http://x.org/s.xml"]
 UNITS = ["mV", "s"]
 ORIGINS = ["f.xml", "my file.odml"]
@@ -173,10 +181,12 @@ def gen_sec(rng, name, subs):
     props = []
     for pi in range(rng.choice([0, 1, 2, 3])):
         kind = rng.choice(["int", "string", "float", "none", "int", "string", "float", "none",
-                           "int2", "float2", "date", "words"])
+                           "int2", "float2", "date", "words", "many"])
         dtype, vals = VALUE_KINDS[kind]
         if kind in ("int", "string", "float", "none"):
             vals = vals[:rng.randrange(0, len(vals) + 1)] if vals else []
+        elif kind == "many":
+            vals = vals[:rng.choice([10, 11, 12])]
         else:
             vals = rng.sample(vals, rng.randrange(1, len(vals) + 1))
         props.append({"name": NAMES[pi], "dtype": dtype, "values": vals,
@@ -252,6 +262,14 @@ def typed_in_docs(docs):
         for s in d["secs"]:
             sec(s)
     return out
+
+
+def typed_triples(docs):
+    """(kind, attribute, text) for the carried dates, uncertainties and repositories (round 5: asked about
+    like the texts, in every stream)"""
+    have = typed_in_docs(docs)
+    return [("Doc", "date", v) for v in have["date"]] + [("Prop", "uncertainty", v) for v in have["uncertainty"]] + \
+        [("Doc", "repository", v) for v in have["doc_repo"]] + [("Sec", "repository", v) for v in have["sec_repo"]]
 
 
 def spec_secs(docs):
@@ -368,7 +386,9 @@ def to_params(pairs, opts=None):
         if isinstance(val, list) and (opts or {}).get("ints"):
             # the documented example passes numbers: ('value', [20, 25])
             val = [int(v) if re.match(r"-?[0-9]+$", v) else v for v in val]
-        if (opts or {}).get("objs"):
+        if (opts or {}).get("objs") and [(q["k"], q["a"]) for q in pairs].count((p["k"], p["a"])) == 1:
+            # (two values for one attribute - a combination the finder never builds, but it sorts all pairs -
+            # stay texts: a date and a text cannot be ordered, a dictionary that mixes them is not demanded)
             val = as_object(p, val)
         out.setdefault(p["k"], []).append((p["a"], val))
     return shape_params(out, "match", opts)
@@ -532,7 +552,7 @@ class C20(fw.Check):
         "match_search_reports_exact", "fuzzy_search_reports_exact"]]
     trusted_base = [
         "Lean 4.33.0 kernel; axioms propext, Classical.choice, Quot.sound only (audited per theorem)",
-        "hand-written models lean/OdmlModel/Model/Query.lean and Model/Rdf.lean, tied to /repo by this run",
+        "hand-written models lean/OdmlModel/Model/Query.lean, Model/QuerySpec.lean and Model/Rdf.lean, tied to /repo by this run",
         "harness/extract_tables.py (format._rdf_map tables regenerated into Lean on every run)",
         "Driver/C20.lean, Driver/RdfCodec.lean JSON glue; harness/framework.py, harness/c20.py, harness/c10.py",
         "rdflib SPARQL engine: basic graph pattern matching with RDF term equality, FILTER with STR / STRSTARTS / EXISTS "
@@ -558,15 +578,20 @@ class C20(fw.Check):
             "default table, one document instead of a list, an earlier sub-classing export of the same documents, "
             "write_file / str(writer) / nt / json-ld read back; oracle-only sets: Sections typed from the tables, "
             "documents edited between two conversions of one writer, documents loaded from files, ten and more "
-            "children, all dtypes, values with SPARQL code point escapes. Non-trivial = at least "
+            "children, all dtypes, values with SPARQL code point escapes. Round 5: histories over one writer "
+            "(several exports by any way out, typed attributes and repositories edited in between, every searched "
+            "export tied to the model), earlier exports on every writer, dates from year 1 to 9999, uncertainties "
+            "and values with exponents / signs / many digits / ten and more values, names and texts that are words "
+            "of the query notations, value lists in the string form, Python objects in the dictionary, lone "
+            "surrogates (oracle-only). Non-trivial = at least "
             "one combination with a hit; distinct = distinct canonical JSON of the case.")
-    quick_n = 110
+    quick_n = 128
     case_timeout = 90
     thorough_n = 2500
 
     # -- generation ----------------------------------------------------------
     def gen_pairs(self, rng, docs, risky):
-        present = values_in_docs(docs)
+        present = values_in_docs(docs) + typed_triples(docs) * 2
         pairs = []
         for key in KEYS:
             if rng.random() < 0.55:
@@ -617,6 +642,8 @@ class C20(fw.Check):
                     # the values of one Property (all / some of them, in any order), now and then with a value
                     # of another Property among them
                     mine = rng.choice(have["values"])
+                    if len(mine) >= 10 and rng.random() < 0.6:
+                        mine = mine[9:] + mine[:1]          # the tenth and later ones
                     vs = rng.sample(mine, rng.randrange(1, min(len(mine), 3) + 1))
                     if rng.random() < 0.25:
                         vs.insert(rng.randrange(len(vs) + 1), rng.choice(rng.choice(have["values"])))
@@ -651,7 +678,25 @@ class C20(fw.Check):
                    "Sec": ["id", "repository", "sections", "properties"],
                    "Prop": ["id", "uncertainty"]}
 
-    def gen_fuzzy(self, rng, docs, risky=False, limit=3):
+    def gen_fuzzy(self, rng, docs, risky=False, limit=3, words=None):
+        attrs, search = self.gen_fuzzy0(rng, docs, risky, limit)
+        # round 5 (words: a family of words of the query notations): more often than not one of the terms is
+        # such a word that an object carries, asked of the attribute that carries it
+        fam = [t for t in values_in_docs(docs) if t[2] in words] if words else []
+        if fam and rng.random() < 0.8:
+            key, attr, val = rng.choice(fam)
+            if attr not in attrs.get(key, []):
+                attrs[key] = (attrs.get(key, []) + [attr])[-2:]
+                while sum(len(v) for v in attrs.values()) > limit:
+                    other = rng.choice([k for k in sorted(attrs) if k != key] or [key])
+                    attrs[other] = attrs[other][1:]
+                    if not attrs[other]:
+                        del attrs[other]
+            if val not in search:
+                search[rng.randrange(len(search))] = val
+        return attrs, search
+
+    def gen_fuzzy0(self, rng, docs, risky=False, limit=3):
         attrs = {}
         for key in KEYS:
             if rng.random() < 0.6:
@@ -689,7 +734,7 @@ class C20(fw.Check):
             search[0] = val
             return attrs, search
         # more often than not one attribute / term pair is taken from an object of the documents (a hit)
-        anchors = [t for t in values_in_docs(docs) if t[0] in attrs]
+        anchors = [t for t in values_in_docs(docs) + typed_triples(docs) * 2 if t[0] in attrs]
         if anchors and rng.random() < 0.7:
             key, attr, val = rng.choice(anchors)
             if attr not in attrs[key]:
@@ -710,7 +755,7 @@ class C20(fw.Check):
         cases = []
         for i in range(n):
             sets = [gen_docs(rng) for _ in range(rng.choice([1, 2, 2]))]
-            if i % 6 == 5:
+            if i % 6 in (4, 5):
                 for specs in sets:
                     wordify(rng, specs, "fuzzy" if i % 2 == 0 else "match")
             both = [d for s in sets for d in s]
@@ -722,7 +767,8 @@ class C20(fw.Check):
                     "writers": [gen_writer(rng, specs) for specs in sets]}
             if i % 2 == 0:
                 case["mode"] = "fuzzy"
-                case["attrs"], case["search"] = self.gen_fuzzy(rng, both, limit=2)
+                case["attrs"], case["search"] = self.gen_fuzzy(rng, both, limit=2,
+                                                               words=FUZZY_WORDS if i % 6 in (4, 5) else None)
             else:
                 case["mode"] = "match"
                 case["pairs"] = self.small_pairs(rng, both, 3)
@@ -807,7 +853,7 @@ class C20(fw.Check):
                  # round 3
                  "typed", "edited", "loaded", "escape", "wide", "dtypes",
                  # round 5
-                 "valuestr", "surrogate", "valuestr"]
+                 "valuestr", "surrogate", "valuestr", "wordy"]
 
     @staticmethod
     def all_secs(specs):
@@ -963,7 +1009,8 @@ class C20(fw.Check):
                 nvals = rng.choice([10, 11, 12])
                 first["props"][0].update({"dtype": "int", "values": [{"i": str(n + 1)} for n in range(nvals)] +
                                           [{"i": "1"}, {"i": "10"}][:rng.randrange(3)]})
-                many_values = rng.choice([["10"], ["%d" % nvals], ["1", "%d" % nvals], ["13"], ["10", "1"], ["1", "1"]])
+                many_values = rng.choice([["10"], ["%d" % nvals], ["1", "%d" % nvals], ["13"], ["10", "1"], ["1", "1"],
+                                          ["10", "%d" % nvals], ["9", "10"]])
             elif kind == "dtypes":
                 if not self.all_secs(docs):
                     docs[0]["secs"].append(gen_sec(rng, "a", []))
@@ -985,7 +1032,7 @@ class C20(fw.Check):
                 if not self.all_secs(docs):
                     docs[0]["secs"].append(gen_sec(rng, "a", []))
                 sec = rng.choice(self.all_secs(docs))
-                dtype, vals = VALUE_KINDS[rng.choice(["int", "string", "int2", "float2", "date", "words"])]
+                dtype, vals = VALUE_KINDS[rng.choice(["int", "string", "int2", "float2", "date", "words", "many"])]
                 text = rng.choice(["[x]", "a]", "]", "x", "HAVING", "value", "[", "y z"])
                 attr = rng.choice(["definition", "reference", "unit", "value_origin"])
                 spec = {"name": "vs", "dtype": dtype, "values": vals, "unit": None, "uncertainty": None,
@@ -1000,6 +1047,9 @@ class C20(fw.Check):
                             {"k": "Prop", "a": attr, "v": text if rng.random() < 0.85 else "other", "vs": []}]
                 if rng.random() < 0.5:
                     valuestr.reverse()
+            elif kind == "wordy":
+                wordify(rng, docs, ("fuzzy" if i % 3 == 2 else "match") if rng.random() < 0.75
+                        else rng.choice(sorted(WORD_FAMILIES)))
             elif kind == "surrogate":
                 # a text with a lone surrogate in it (Python reads such texts from file names and broken
                 # input): no text form of the export can carry it, the graph the writer hands out can
@@ -1038,10 +1088,10 @@ class C20(fw.Check):
                 opts["writer"]["hist"] = [v for v in opts["writer"].get("hist", []) if v == "graph"]
             case = {"stream": "sets", "kind": kind, "docs": docs, "post": post, "opts": opts,
                     "how": rng.choice(["dict", "str"])}
-            if kind == "valuestr":
+            if kind in ("valuestr", "wordy"):
                 case["how"] = "str"
             value_pair = None
-            if kind == "wide" and rng.random() < 0.7:
+            if kind == "wide" and rng.random() < 0.85:
                 value_pair = {"k": "Prop", "a": "value", "v": "", "vs": many_values}
             if kind == "dtypes" and rng.random() < 0.6:
                 # a value searched by its text, for the dtypes whose Python text is the text of the export
@@ -1054,7 +1104,7 @@ class C20(fw.Check):
                 case["edits"] = edits
             if i % 3 == 2 and kind != "valuestr":
                 case["mode"] = "fuzzy"
-                case["attrs"], case["search"] = self.gen_fuzzy(rng, docs)
+                case["attrs"], case["search"] = self.gen_fuzzy(rng, docs, words=FUZZY_WORDS if kind == "wordy" else None)
                 if wanted:
                     k, a, v = wanted[0]
                     case["attrs"] = {k: [a]} if kind == "escape" else dict(case["attrs"], **{k: [a]})
@@ -1113,10 +1163,10 @@ class C20(fw.Check):
             wordy = i % 8 in (2, 3)
             if wordy:
                 own = "fuzzy" if i % 4 == 3 else "match"
-                wordify(rng, docs, own if rng.random() < 0.6 else rng.choice(sorted(WORD_FAMILIES)))
+                wordify(rng, docs, own if rng.random() < 0.75 else rng.choice(sorted(WORD_FAMILIES)))
             how = "str" if wordy and rng.random() < 0.8 else rng.choice(["dict", "str"])
             if i % 4 == 3:
-                attrs, search = self.gen_fuzzy(rng, docs, risky=(i % 16 == 7))
+                attrs, search = self.gen_fuzzy(rng, docs, risky=(i % 16 == 7), words=FUZZY_WORDS if wordy else None)
                 cases.append({"stream": "fuzzy", "docs": docs, "attrs": attrs, "search": search,
                               "how": how, "opts": gen_opts(rng, docs)})
             else:
@@ -1126,7 +1176,7 @@ class C20(fw.Check):
                               "how": how, "opts": gen_opts(rng, docs)})
         cases += self.gen_reuse(rng, 44 if tier == "quick" else 400)
         cases += self.gen_whist(rng, 30 if tier == "quick" else 400)
-        cases += self.gen_sets(rng, 64 if tier == "quick" else 800)
+        cases += self.gen_sets(rng, 80 if tier == "quick" else 1000)
         cases += self.gen_creator(rng, 40 if tier == "quick" else 500)
         m = 150 if tier == "quick" else 3000
         terms = [["i", "ex:a"], ["i", "ex:b"], ["i", "ex:c"], ["l", "x", ""], ["l", "y", ""],
@@ -1455,7 +1505,8 @@ class C20(fw.Check):
             graph.parse(data=str(writer), format="turtle")
             return graph
         if via in ("file", "file_xml", "file_nt"):
-            fmt = {"file": "turtle", "file_xml": "xml" if xml_safe(specs) else "turtle", "file_nt": "nt"}[via]
+            fmt = {"file": "turtle", "file_nt": "nt",
+                   "file_xml": "xml" if xml_safe(specs) else "turtle" if turtle_safe([specs, edits]) else "nt"}[via]
             tmp = tempfile.mkdtemp(prefix="c20_")
             try:
                 writer.write_file(os.path.join(tmp, "export"), fmt)
